@@ -14,9 +14,9 @@ from pddl_plus_parser.exporters import TrajectoryExporter
 from pddl_plus_parser.lisp_parsers import TrajectoryParser
 
 
-KINDS = ["app", "apply", "newop", "applyop", "copy", "eq", "run", "export", "parse", "objs", "flconds"]
-WEIGHTS = {"chain": [3, 8, 1, 3, 0, 0, 2, 0, 0, 0, 0], "mixed": [2, 5, 1, 3, 1, 2, 2, 1, 1, 1, 1],
-           "state": [1, 5, 1, 2, 3, 6, 1, 0, 1, 2, 2], "traj": [0, 2, 0, 0, 0, 1, 4, 3, 4, 0, 0]}
+KINDS = ["app", "apply", "newop", "applyop", "copy", "eq", "run", "export", "parse", "objs", "flconds", "typed"]
+WEIGHTS = {"chain": [3, 8, 1, 3, 0, 0, 2, 0, 0, 0, 0, 0], "mixed": [2, 5, 1, 3, 1, 2, 2, 1, 1, 1, 1, 1],
+           "state": [1, 5, 1, 2, 3, 6, 1, 0, 1, 2, 2, 2], "traj": [0, 2, 0, 0, 0, 1, 4, 3, 4, 0, 0, 0]}
 
 
 def proj_steps(triplets):
@@ -155,6 +155,12 @@ def run_case(case, opts):
             except Exception as e:  # noqa: BLE001
                 out = {"exc": pylib.exc_name(e)}
             ev.append({"c": "StateObjects", "s": sh, "out": out})
+        elif kind == "typed":
+            try:
+                out = pylib.project_typed_state(states[sh])
+            except Exception as e:  # noqa: BLE001
+                out = {"exc": pylib.exc_name(e)}
+            ev.append({"c": "TypedSerialize", "d": "d", "u": "p", "s": sh, "out": out})
         elif kind == "flconds":
             try:
                 conds = states[sh].convert_fluents_to_numeric_conditions()
